@@ -100,6 +100,7 @@ theorem run_good (cfg : Cfg) (adv : List Req → Reply) :
     · rename_i r hcur
       split
       · exact ⟨by simp, Nat.le_refl _, Nat.le_refl _, by simp, by simp, by simp <;> omega, by simp⟩
+      · exact ⟨by simp, Nat.le_refl _, Nat.le_refl _, by simp, by simp, by simp <;> omega, by simp⟩
       simp only []
       split
       · exact ⟨by simp, Nat.le_refl _, Nat.le_refl _, by simp, by simp, by simp <;> omega, by simp⟩
@@ -290,6 +291,121 @@ theorem visits_with_request_le_tries (tries : Nat) (ht : 1 ≤ tries) (cfg : Cfg
       simp only [List.length_cons]; omega
     · omega
 
+/-! ### visits with a robots.txt checker: the server also controls the robots.txt answers -/
+
+/-- the record after a visit with robots.txt handling -/
+def afterVisitR (tries : Nat) (accept : Bool) (cfg : Cfg) (adv advR : List Req → Reply) (d : Bool)
+    (r : Req) (rec : Rec) (pool : Option Bool) : Rec :=
+  (visitR tries accept cfg adv advR d r rec pool).checkIns.foldl applyCheckIn rec
+
+theorem endOfVisit_increment (last : Nat) (out : Outcome) : (endOfVisit last out).increment = true := by
+  unfold endOfVisit; split <;> (try split) <;> (try split) <;> rfl
+
+/-- With robots.txt in play — whatever the robots.txt fetch meets (5xx for ever, resets, redirects,
+garbage, a disallowing file) — a visit still makes exactly one check-in and raises try_count by one. -/
+theorem visitR_one_checkin (tries : Nat) (accept : Bool) (cfg : Cfg) (adv advR : List Req → Reply) (d : Bool)
+    (r : Req) (rec : Rec) (pool : Option Bool) :
+    (visitR tries accept cfg adv advR d r rec pool).checkIns.length = 1 ∧
+    (afterVisitR tries accept cfg adv advR d r rec pool).tryCount = rec.tryCount + 1 := by
+  unfold afterVisitR visitR
+  split
+  · simp [applyCheckIn]
+  · split
+    · simp [applyCheckIn]
+    · simp [applyCheckIn, endOfVisit_increment]
+    · simp only []
+      split <;> simp [applyCheckIn, endOfVisit_increment]
+
+/-- The robots.txt consult sits behind the filter verdict: a visit sends ANY request — for the
+page or for robots.txt — only while tries are left; a URL that TriesFilter refuses is checked in as
+skipped without a single request.  Each kind of request is bounded by 2·(max_redirects+1). -/
+theorem visitR_requests (tries : Nat) (accept : Bool) (cfg : Cfg) (adv advR : List Req → Reply) (d : Bool)
+    (r : Req) (rec : Rec) (pool : Option Bool) :
+    let v := visitR tries accept cfg adv advR d r rec pool
+    ((v.sent ≠ [] ∨ v.robotsSent ≠ []) → (tries = 0 ∨ rec.tryCount < tries)) ∧
+    (triesFilter tries rec = false → v.sent = [] ∧ v.robotsSent = [] ∧
+      (afterVisitR tries accept cfg adv advR d r rec pool).status = .skipped) ∧
+    v.sent.length ≤ 2 * (cfg.maxRedirects + 1) ∧ v.robotsSent.length ≤ 2 * (cfg.maxRedirects + 1) := by
+  intro v
+  by_cases hf : (!(triesFilter tries rec && accept)) = true
+  · have hv : v = ⟨[], [], [⟨.skipped, true⟩], pool⟩ := by
+      show visitR tries accept cfg adv advR d r rec pool = _
+      unfold visitR; rw [if_pos hf]
+    have ha : (afterVisitR tries accept cfg adv advR d r rec pool).status = .skipped := by
+      unfold afterVisitR; rw [show visitR tries accept cfg adv advR d r rec pool = v from rfl, hv]; simp [applyCheckIn]
+    rw [hv]; simp [ha]
+  · have hpass : triesFilter tries rec = true := by
+      cases h : triesFilter tries rec <;> simp [h] at hf ⊢
+    have htl : tries = 0 ∨ rec.tryCount < tries := by
+      simp [triesFilter] at hpass
+      by_cases h0 : tries = 0
+      · exact Or.inl h0
+      · rcases hpass with h | h
+        · exact absurd h h0
+        · exact Or.inr h
+    have hno : triesFilter tries rec = false → v.sent = [] ∧ v.robotsSent = [] ∧
+        (afterVisitR tries accept cfg adv advR d r rec pool).status = .skipped := by
+      intro h; rw [hpass] at h; cases h
+    refine ⟨fun _ => htl, hno, ?_, ?_⟩
+    · show (visitR tries accept cfg adv advR d r rec pool).sent.length ≤ _
+      unfold visitR; rw [if_neg hf]
+      split
+      · simp
+      · exact (requests_per_visit_bound cfg adv r).2
+      · simp only []; split
+        · simp
+        · simp
+        · exact (requests_per_visit_bound cfg adv r).2
+    · show (visitR tries accept cfg adv advR d r rec pool).robotsSent.length ≤ _
+      unfold visitR; rw [if_neg hf]
+      split
+      · simp
+      · simp
+      · simp only []
+        have := (requests_per_visit_bound { cfg with gate := fun _ => .pass } advR (robotsReq r.url)).2
+        split <;> exact this
+
+/-- one visit's adversary: filter verdict, page server, robots.txt server, what a 200 robots body says -/
+abbrev VisitAdv := Bool × (List Req → Reply) × (List Req → Reply) × Bool
+
+/-- per visit: did it send any request (page or robots.txt)?  The pool is threaded through. -/
+def visitsFromR (tries : Nat) (cfg : Cfg) (r : Req) : List VisitAdv → Rec → Option Bool → List Bool
+  | [], _, _ => []
+  | (acc, adv, advR, d) :: rest, rec, pool =>
+    let v := visitR tries acc cfg adv advR d r rec pool
+    (!(v.sent.isEmpty && v.robotsSent.isEmpty)) ::
+      visitsFromR tries cfg r rest (afterVisitR tries acc cfg adv advR d r rec pool) v.pool
+
+/-- `visits_with_request_le_tries` with robots.txt: for every sequence of visits against servers
+that also control the robots.txt answers (perpetual 5xx / resets included), at most
+`tries − try_count` visits send any request at all.  (tries ≥ 1.) -/
+theorem visits_with_any_request_le_tries (tries : Nat) (ht : 1 ≤ tries) (cfg : Cfg) (r : Req) :
+    ∀ (vs : List VisitAdv) (rec : Rec) (pool : Option Bool),
+      ((visitsFromR tries cfg r vs rec pool).filter (· = true)).length ≤ tries - rec.tryCount := by
+  intro vs
+  induction vs with
+  | nil => intro rec pool; simp [visitsFromR]
+  | cons v rest ih =>
+    intro rec pool
+    obtain ⟨acc, adv, advR, d⟩ := v
+    unfold visitsFromR
+    have hinc := (visitR_one_checkin tries acc cfg adv advR d r rec pool).2
+    have hreq := (visitR_requests tries acc cfg adv advR d r rec pool).1
+    have := ih (afterVisitR tries acc cfg adv advR d r rec pool) (visitR tries acc cfg adv advR d r rec pool).pool
+    rw [hinc] at this
+    simp only [List.filter_cons]
+    split
+    · rename_i hne
+      have : rec.tryCount < tries := by
+        have hh : (visitR tries acc cfg adv advR d r rec pool).sent ≠ [] ∨
+            (visitR tries acc cfg adv advR d r rec pool).robotsSent ≠ [] := by
+          simpa using hne
+        rcases hreq hh with h | h
+        · omega
+        · exact h
+      simp only [List.length_cons]; omega
+    · omega
+
 /-! ### the crawl of a finite URL set terminates -/
 
 /-- one URL of the finite universe: not discovered yet, or its table record -/
@@ -302,13 +418,14 @@ def slotMeasure (tries : Nat) : Slot → Nat
 def crawlMeasure (tries : Nat) (st : List Slot) : Nat := (st.map (slotMeasure tries)).sum
 
 /-- A step of the crawl: a URL of the universe is discovered (added as `todo`), or an offered
-URL (`todo` / `error`) is visited — against any server and any filter verdict. -/
+URL (`todo` / `error`) is visited — against any page server, any robots.txt server, any pool
+state and any filter verdict (`pool = some true` is a crawl without robots.txt checker). -/
 inductive CrawlStep (tries : Nat) (cfg : Cfg) : List Slot → List Slot → Prop
   | discover (st : List Slot) (i : Nat) (h : st[i]? = some none) :
       CrawlStep tries cfg st (st.set i (some ⟨.todo, 0⟩))
   | visit (st : List Slot) (i : Nat) (rec : Rec) (h : st[i]? = some (some rec)) (ho : offered rec = true)
-      (accept : Bool) (adv : List Req → Reply) (r : Req) :
-      CrawlStep tries cfg st (st.set i (some (afterVisit tries accept cfg adv r rec)))
+      (accept : Bool) (adv advR : List Req → Reply) (d : Bool) (r : Req) (pool : Option Bool) :
+      CrawlStep tries cfg st (st.set i (some (afterVisitR tries accept cfg adv advR d r rec pool)))
 
 theorem sum_set_nat : ∀ (l : List Nat) (i a b : Nat), l[i]? = some a → (l.set i b).sum + a = l.sum + b
   | [], i, a, b, h => by simp at h
@@ -323,10 +440,10 @@ theorem sum_set (f : Slot → Nat) (l : List Slot) (i : Nat) (a b : Slot) (h : l
   rw [List.map_set]
   exact sum_set_nat (l.map f) i (f a) (f b) (by simp [h])
 
-theorem afterVisit_measure (tries : Nat) (ht : 1 ≤ tries) (accept : Bool) (cfg : Cfg) (adv : List Req → Reply)
-    (r : Req) (rec : Rec) (ho : offered rec = true) :
-    slotMeasure tries (some (afterVisit tries accept cfg adv r rec)) < slotMeasure tries (some rec) := by
-  have hinc := (try_count_increments_once_per_visit tries accept cfg adv r rec).2
+theorem afterVisit_measure (tries : Nat) (ht : 1 ≤ tries) (accept : Bool) (cfg : Cfg) (adv advR : List Req → Reply)
+    (d : Bool) (r : Req) (rec : Rec) (pool : Option Bool) (ho : offered rec = true) :
+    slotMeasure tries (some (afterVisitR tries accept cfg adv advR d r rec pool)) < slotMeasure tries (some rec) := by
+  have hinc := (visitR_one_checkin tries accept cfg adv advR d r rec pool).2
   simp only [slotMeasure, ho, if_true]
   split
   · -- still offered: then the visit was not refused by the tries filter, so a try was left
@@ -336,10 +453,8 @@ theorem afterVisit_measure (tries : Nat) (ht : 1 ≤ tries) (accept : Bool) (cfg
       by_cases hf : rec.tryCount < tries
       · exact hf
       · exfalso
-        have : (afterVisit tries accept cfg adv r rec).status = .skipped := by
-          unfold afterVisit visit
-          have : triesFilter tries rec = false := by simp [triesFilter]; omega
-          simp [this, applyCheckIn]
+        have hfil : triesFilter tries rec = false := by simp [triesFilter]; omega
+        have := ((visitR_requests tries accept cfg adv advR d r rec pool).2.1 hfil).2.2
         simp [offered, this] at ho'
     omega
   · omega
@@ -354,9 +469,9 @@ theorem crawl_step_decreases (tries : Nat) (ht : 1 ≤ tries) (cfg : Cfg) (st st
     have e2 : slotMeasure tries (some ⟨.todo, 0⟩) = tries + 1 := by simp [slotMeasure, offered]
     rw [e1, e2] at this
     unfold crawlMeasure; omega
-  | visit i rec hi ho accept adv r =>
-    have := sum_set (slotMeasure tries) st i (some rec) (some (afterVisit tries accept cfg adv r rec)) hi
-    have hlt := afterVisit_measure tries ht accept cfg adv r rec ho
+  | visit i rec hi ho accept adv advR d r pool =>
+    have := sum_set (slotMeasure tries) st i (some rec) (some (afterVisitR tries accept cfg adv advR d r rec pool)) hi
+    have hlt := afterVisit_measure tries ht accept cfg adv advR d r rec pool ho
     unfold crawlMeasure; omega
 
 /-- … therefore a crawl of a finite URL set terminates: there is no infinite sequence of
